@@ -32,6 +32,7 @@ struct FsModel
     bool tracing = false;
     bool active = false;
     std::uint64_t nevent = 0;                    // events of this incarnation
+    std::uint64_t nopen = 0;                     // opens for writing of this incarnation
     bool dead = false;                           // the process "died" at an earlier event
     std::vector<Fault> faults;                   // FLT_KILL_FS, FLT_SHORT_WRITE, FLT_EINTR, FLT_IO_ERROR
     // counters of faults that actually fired
@@ -43,6 +44,7 @@ struct FsModel
         fds.clear();
         trace.clear();
         nevent = 0;
+        nopen = 0;
         dead = false;
         faults.clear();
     }
